@@ -6,7 +6,7 @@
    of the known findings. *)
 From Coq Require Import ZArith List Bool String.
 From GW Require Import Prelude PyStr PyFloat Sensors SensorProofs Settings TablesGen SettingsGen SchedDef SharedGen SchedDefRefine
-  Modes ModesGen ModesInst ModesProofs TwoObj TwoObjInst TwoObjProofs ProtoGen.
+  Modes ModesGen ModesInst ModesProofs TwoObj TwoObjInst TwoObjProofs TwoObjModes ProtoGen.
 Import ListNotations.
 Open Scope Z_scope.
 
@@ -104,6 +104,25 @@ Proof. exact eco_v1_read_value_refined. Qed.
 Theorem C20_decoding_has_no_hidden_state : forall d pos s1 s2, s1 = s2 -> sensor_read d pos s1 = sensor_read d pos s2.
 Proof. exact (fun d pos s1 s2 H => f_equal (sensor_read d pos) H). Qed.
 
+(* the two-object model and the single-object model of C19 agree: on the caller's registers, set_operation_mode in the two-object world does
+   what the C19 model does when its "previous schedule type" is the type the shared eco_mode_1 definition holds at that moment *)
+Theorem C20_set_mode_is_the_c19_model : forall a b who m p soc r ds r' ds' rr t,
+  mode_steps (et_tctx a b) who p soc (et_set_mode m) r ds = (r', ds', rr, t) ->
+  run_msteps (ctx (pl745 a b who) (d_ty (ds "eco_mode_1"%string)) p soc) (et_set_mode m) r = match rr with Ok _ => Ok r' | Exc e => Exc e end.
+Proof. exact set_mode_is_the_c19_model. Qed.
+
+Theorem C20_get_mode_is_the_c19_model : forall a b who w,
+  fst (snd (step (et_tctx a b) w who OGetMode)) =
+  match get_operation_mode om_values et_settings (regs w who) with Ok m => OutMode m | Exc e => OutExc e end.
+Proof. exact get_mode_is_the_c19_model. Qed.
+
+(* hence the C19 round trip holds for an object inside EVERY interleaving in which the other object does not touch a schedule definition *)
+Theorem C20_mode_roundtrip_in_interleavings : forall a b who m p soc l1 l2 l3 w,
+  roundtrip_mode m p soc ->
+  (forall o, In o (l1 ++ l2 ++ l3) -> fst o = negb who /\ touches (et_tctx a b) (snd o) = false) ->
+  map fst (mine who (snd (run (et_tctx a b) w (l1 ++ (who, OSetMode m p soc) :: l2 ++ (who, OGetMode) :: l3)))) = [OutDone; OutMode (Some m)].
+Proof. exact mode_roundtrip_in_interleavings. Qed.
+
 Print Assumptions C20_untouching_neighbour_does_not_interfere.
 Print Assumptions C20_schedule_free_interleavings_are_independent.
 Print Assumptions C20_touching_settings.
@@ -117,3 +136,6 @@ Print Assumptions C20_shared_state_inventory.
 Print Assumptions C20_schedule_read_value_is_the_model.
 Print Assumptions C20_eco_v1_read_value_is_the_model.
 Print Assumptions C20_decoding_has_no_hidden_state.
+Print Assumptions C20_set_mode_is_the_c19_model.
+Print Assumptions C20_get_mode_is_the_c19_model.
+Print Assumptions C20_mode_roundtrip_in_interleavings.
